@@ -72,10 +72,10 @@ func forkConfig(name string) (*params.ChainConfig, bool) {
 // ---- logger for aspect-core / aspect-runtime ----
 type quietLogger struct{}
 
-func (quietLogger) Debug(string, ...interface{})          {}
-func (quietLogger) Info(string, ...interface{})           {}
-func (quietLogger) Error(string, ...interface{})          {}
-func (l quietLogger) With(...interface{}) rtypes.Logger   { return l }
+func (quietLogger) Debug(string, ...interface{})        {}
+func (quietLogger) Info(string, ...interface{})         {}
+func (quietLogger) Error(string, ...interface{})        {}
+func (l quietLogger) With(...interface{}) rtypes.Logger { return l }
 
 // ---- mock Aspect runtime ----
 
@@ -85,10 +85,10 @@ type aspectHandler func(code []byte, pointcut string, gas int64, req []byte) (re
 var (
 	hostMu       sync.Mutex
 	hostInitDone bool
-	curHandler   aspectHandler       // set per case
+	curHandler   aspectHandler // set per case
 	curProvider  func(ctx context.Context, contract common.Address, pc atypes.PointCut) ([]*atypes.AspectCode, error)
-	hostCtxLog   []string            // log of host context callback invocations
-	hostCtxFail  map[string]error    // scripted failures of host callbacks, by callback name
+	hostCtxLog   []string         // log of host context callback invocations
+	hostCtxFail  map[string]error // scripted failures of host callbacks, by callback name
 	hostCtxRet   []byte
 )
 
@@ -99,11 +99,11 @@ func (m *mockRuntime) Call(method string, gas int64, args ...interface{}) (inter
 	req, _ := args[1].([]byte)
 	return curHandler(m.code, pc, gas, req)
 }
-func (m *mockRuntime) Destroy()                                                    {}
-func (m *mockRuntime) Reset()                                                      {}
-func (m *mockRuntime) ResetStore(context.Context, *rtypes.HostAPIRegistry) error   { return nil }
-func (m *mockRuntime) Context() context.Context                                    { return context.Background() }
-func (m *mockRuntime) Logger() rtypes.Logger                                       { return quietLogger{} }
+func (m *mockRuntime) Destroy()                                                  {}
+func (m *mockRuntime) Reset()                                                    {}
+func (m *mockRuntime) ResetStore(context.Context, *rtypes.HostAPIRegistry) error { return nil }
+func (m *mockRuntime) Context() context.Context                                  { return context.Background() }
+func (m *mockRuntime) Logger() rtypes.Logger                                     { return quietLogger{} }
 
 type mockProvider struct{}
 
